@@ -155,12 +155,27 @@ func ruleConv(c *Ctx) {
 	}
 	guard := func(fd *ast.FuncDecl) {
 		name := "conv." + fd.Name.Name
+		// an assertion `lv <= maxLevel` (or `<`) on the level parameter that dominates every call of the function
 		ok := false
-		if len(fd.Body.List) > 0 {
-			if is, isIf := fd.Body.List[0].(*ast.IfStmt); isIf {
-				if be, isB := unparen(is.Cond).(*ast.BinaryExpr); isB && (be.Op == token.GTR || be.Op == token.GEQ) && src(be.X) == "lv" {
-					if o := c.objOf(be.Y); o != nil && qual(o) == "conv.maxLevel" && len(c.callsTo(is.Body, "builtin.panic")) == 1 {
-						ok = true
+		g := c.buildCFG(fd.Body)
+		nodes, terms := c.assertedTerms(fd, fd.Body)
+		lvName := fmt.Sprintf("p%d", fd.Type.Params.NumFields()-1)
+		for i, tm := range terms {
+			maxT := "conv.maxLevel"
+			if mo, isC := c.Obj("conv", "maxLevel").(*types.Const); isC {
+				maxT = "const:" + mo.Val().ExactString()
+			}
+			if tm == "le("+lvName+","+maxT+")" || tm == "lt("+lvName+","+maxT+")" {
+				ok = true
+				for _, call := range c.calls(fd.Body) {
+					if call.Pos() >= nodes[i].Pos() && call.End() <= nodes[i].End() {
+						continue
+					}
+					if nm := c.calleeName(call); nm == "util.Assert" && call.Pos() < nodes[i].Pos() {
+						continue
+					}
+					if !g.dominates(nodes[i], call) {
+						ok = false
 					}
 				}
 			}
@@ -180,17 +195,19 @@ func ruleConv(c *Ctx) {
 	// CONV-2 nil before use
 	{
 		g := c.buildCFG(vlOf.Body)
-		var nilTest *ast.IfStmt
-		inspectNoLit(vlOf.Body, func(x ast.Node) bool {
-			if is, ok := x.(*ast.IfStmt); ok && nilTest == nil && len(c.callsTo(is.Cond, "conv.isNil")) == 1 && len(c.callsTo(is.Body, "builtin.panic")) == 1 {
-				nilTest = is
+		var nilTest ast.Node
+		{
+			nodes, terms := c.assertedTerms(vlOf, vlOf.Body)
+			for i, tm := range terms {
+				if tm == "not(conv.isNil(p0))" && nilTest == nil {
+					nilTest = nodes[i]
+				}
 			}
-			return true
-		})
+		}
 		ok := nilTest != nil
 		if ok {
 			for _, call := range c.calls(vlOf.Body) {
-				if nm := c.calleeName(call); strings.HasPrefix(nm, "reflect.Value.") && nm != "reflect.Value.IsValid" && !g.dominates(nilTest.Cond, call) {
+				if nm := c.calleeName(call); strings.HasPrefix(nm, "reflect.Value.") && nm != "reflect.Value.IsValid" && !g.dominates(nilTest, call) {
 					ok = false
 				}
 			}
@@ -343,7 +360,13 @@ func ruleConv(c *Ctx) {
 	homog("valOfSlice", 1)
 	homog("valOfMap", 2)
 	if ate := c.FuncDecl("conv", "assertTypeEquals"); ate != nil {
-		ok := len(c.callsTo(ate.Body, "types.Equals")) == 1 && len(c.callsTo(ate.Body, "builtin.panic")) == 1
+		ok := false
+		_, terms := c.assertedTerms(ate, ate.Body)
+		for _, tm := range terms {
+			if tm == "types.Equals(p0.Type,p1.Type)" || tm == "types.Equals(p1.Type,p0.Type)" {
+				ok = true
+			}
+		}
 		c.R.Check(ok, "conv.assertTypeEquals", "CONV-3 panics unless types.Equals", ate.Pos(), "structural equality", "assertTypeEquals does not fail on unequal types")
 	}
 	// the two map-environment builders agree modulo renaming
